@@ -21,11 +21,15 @@ func main() {
 	replay := flag.String("replay", "", "replay file")
 	scale := flag.Float64("scale", 1.0, "multiplies the case budget")
 	list := flag.Bool("list", false, "list engines")
+	known := flag.String("known", "", "known_findings.json: findings matching an open entry are reported separately and never mask others")
 	dump := flag.Int("dump", 0, "print N generated cases with the implementation's answers and exit")
 	stress := flag.String("stress", "", "run the concurrency stress workload of an engine (conc); meant for a -race build")
 	seconds := flag.Int("seconds", 40, "duration of the stress workload")
 	work := flag.String("work", "", "scratch directory of the stress run (race detector logs)")
 	flag.Parse()
+	if *known != "" {
+		loadKnown(*known)
+	}
 
 	if *stress != "" {
 		os.Exit(runStress(*stress, *seconds, *seed, *work))
@@ -55,6 +59,20 @@ func main() {
 	start := time.Now()
 	rep := &Report{Engine: e.Name(), Tier: *tier, Seed: *seed, Tags: map[string]int{}, OpKinds: map[string]int{}, AnswerKinds: map[string]int{}}
 	var findings []Finding
+	knownSeen := map[string]int{}
+	keep := func(fs []Finding) {
+		for _, f := range fs {
+			if id := knownID(f); id != "" {
+				knownSeen[id]++
+				if knownSeen[id] <= 1 {
+					f.Known = id
+					rep.Findings = append(rep.Findings, f)
+				}
+				continue
+			}
+			findings = append(findings, f)
+		}
+	}
 
 	// corpus first
 	corpus := e.Corpus()
@@ -64,7 +82,7 @@ func main() {
 		}
 	}
 	if len(corpus) > 0 {
-		findings = append(findings, checkBatch(e, d, corpus, rep, *seed)...)
+		keep(checkBatch(e, d, corpus, rep, *seed))
 	}
 
 	// generated cases, in batches
@@ -80,7 +98,7 @@ func main() {
 		for i := range cases {
 			cases[i] = e.Gen(root.Fork(), *tier)
 		}
-		findings = append(findings, checkBatch(e, d, cases, rep, *seed)...)
+		keep(checkBatch(e, d, cases, rep, *seed))
 		if len(findings) > 20 {
 			break
 		}
@@ -93,14 +111,28 @@ func main() {
 			continue
 		}
 		perKind[f.Kind]++
-		rep.Findings = append(rep.Findings, shrink(e, d, f))
+		sf := shrink(e, d, f)
+		if knownID(sf) != "" { // shrinking must not turn a new finding into a known shape
+			sf = f
+		}
+		rep.Findings = append(rep.Findings, sf)
 	}
 	rep.WallS = time.Since(start).Seconds()
 	if *out != "" {
 		writeJSON(*out, rep)
 	}
-	fmt.Printf("engine=%s tier=%s seed=%d cases=%d ops=%d findings=%d wall=%.1fs\n", e.Name(), *tier, *seed, rep.Cases, rep.Ops, len(rep.Findings), rep.WallS)
+	newFindings := 0
 	for _, f := range rep.Findings {
+		if f.Known == "" {
+			newFindings++
+		}
+	}
+	fmt.Printf("engine=%s tier=%s seed=%d cases=%d ops=%d findings=%d known=%d wall=%.1fs\n", e.Name(), *tier, *seed, rep.Cases, rep.Ops, newFindings, len(rep.Findings)-newFindings, rep.WallS)
+	for _, f := range rep.Findings {
+		if f.Known != "" {
+			fmt.Printf("  known finding %s (ops=%d)\n", f.Known, len(f.Case.Ops))
+			continue
+		}
 		fmt.Printf("  finding kind=%s ops=%d", f.Kind, len(f.Case.Ops))
 		if f.Diff != nil {
 			fmt.Printf(" at op %q impl=%q model=%q", f.Diff.Op, f.Diff.Impl, f.Diff.Model)
@@ -110,7 +142,7 @@ func main() {
 		}
 		fmt.Println()
 	}
-	if len(rep.Findings) > 0 {
+	if newFindings > 0 {
 		os.Exit(1)
 	}
 }
